@@ -11,7 +11,7 @@ import os
 from vlib import *
 from pegrun import *
 
-SLICES_QUICK = [("core", 3, 3, 3), ("counted", 2, 2, 3), ("ws", 4, 2, 2)]
+SLICES_QUICK = [("core", 3, 3, 3), ("counted", 2, 2, 3), ("ws", 4, 2, 2), ("restore", 4, 1, 4)]
 SLICES_THOROUGH = [("core", 8, 3, 4), ("counted", 4, 3, 4), ("ws", 8, 2, 3), ("stack", 6, 3, 3), ("factor", 4, 1, 4)]
 
 
@@ -31,6 +31,8 @@ def run(ctx):
             ctx.cov["transitions"] += r.generated
         if quick and name == "ws":
             thin(cases, 3)
+        if quick and name == "restore":
+            thin(cases, 5)
         out = os.path.join(ctx.work, "sw_%s.ndjson" % name)
         s = run_json([vh, "c12-emit", "--cases", cases, "--out", out], timeout=6000)
         os.remove(cases)
